@@ -365,7 +365,7 @@ fn enumerate_c11(a: &Args, index: u64, out: &mut impl Write) -> Option<Replay> {
     let run_seed = run_seed_for(a.seed, &a.profile, index);
     let mut rng = Rng::new(run_seed, gen::STREAM_WORKLOAD);
     let prefix = gen::gen_small_world(&mut rng, 0, if a.thorough { 14 } else { 9 });
-    let enc = (index % 4) as u8;
+    let enc = (index % medium::NENC as u64) as u8;
     let cont = gen::gen_continuation(&mut rng, 1, 5);
     // Dry run to learn the stream length and per-token alteration counts.
     let dry = run_ops(&prefix, 2, run_seed, false, Some((0, enc)));
@@ -380,7 +380,7 @@ fn enumerate_c11(a: &Args, index: u64, out: &mut impl Write) -> Option<Replay> {
     }
     let n = dry.stream_len;
     let mut faults: Vec<Vec<StreamFault>> = Vec::new();
-    let stride = if enc == 2 && !a.thorough { 3 } else { 1 };
+    let stride = if (enc == 2 || enc == 4) && !a.thorough { 3 } else { 1 };
     let mut pos = 0;
     while pos < n {
         for kind in ["del", "dup", "swap", "cut"] {
@@ -396,7 +396,7 @@ fn enumerate_c11(a: &Args, index: u64, out: &mut impl Write) -> Option<Replay> {
         for v in 0..nv {
             faults.push(vec![StreamFault { kind: "alt".into(), pos, arg: v as i64 }]);
         }
-        if enc != 2 && rng.chance(1, 4) {
+        if enc != 2 && enc != 4 && rng.chance(1, 4) {
             faults.push(vec![StreamFault { kind: "move".into(), pos, arg: rng.below(n as u64) as i64 }]);
         }
         pos += stride;
@@ -528,8 +528,8 @@ fn c17_target(rng: &mut Rng, which: usize) -> Op {
         6 => Op::CloneFrom { src: 0, dst: 1 },
         7 => Op::EqCheck { a: 0, b: 1 },
         8 => Op::DebugFmt { slot: 0 },
-        9 => Op::RoundTrip { src: 0, dst: 1, enc: rng.below(4) as u8 },
-        10 => Op::RoundTrip { src: 0, dst: 0, enc: rng.below(4) as u8 },
+        9 => Op::RoundTrip { src: 0, dst: 1, enc: rng.below(crate::medium::NENC as u64) as u8 },
+        10 => Op::RoundTrip { src: 0, dst: 0, enc: rng.below(crate::medium::NENC as u64) as u8 },
         11 => Op::Extend { slot: 0, how: 1, site: rng.below(g::CLONED_SITES.len() as u64) as u16, n: rng.range(1, 4) as u16, extra: 0, seed: rng.next_u64() },
         12 => Op::Crash { slot: 0 },
         _ => Op::Entry {
@@ -557,7 +557,7 @@ fn enumerate_c17(a: &Args, index: u64, out: &mut impl Write) -> Option<Replay> {
         _ => {}
     }
     if rng.chance(1, 2) {
-        prefix.push(Op::Snapshot { slot: 0, enc: rng.below(4) as u8 });
+        prefix.push(Op::Snapshot { slot: 0, enc: rng.below(crate::medium::NENC as u64) as u8 });
         prefix.extend(gen::gen_small_world(&mut rng, 0, 3));
     }
     let target = c17_target(&mut rng, (index as usize) % C17_TARGETS);
